@@ -60,6 +60,61 @@ check(
     "DESIGN.md §3 C03",
 )
 
+check(
+    "C04",
+    "engine-B",
+    "exploration",
+    "runtime monitoring under controlled-schedule execution: launch-order monitor at SimProcessBuilder.start against the plan's own edges, over seeded schedules of the controlled engine",
+    "Every launch event is checked against the harness's ground truth (which task objects it embedded where) and its own record of successful exits, for every embedding kind and thousands of (plan, schedule) pairs. Held on the schedules explored; unexplored schedules are not covered.",
+    "Trusted: the simulation boundary (SimProcess writes the runner's markers; foreign processes are a driver-serialised second CounterToken object), the plan as ground truth, asyncio FIFO inside the loop.",
+    "DESIGN.md §2.3, §3 C04",
+)
+check(
+    "C05",
+    "engine-B",
+    "exploration",
+    "runtime monitoring under controlled-schedule execution: submission-history monitor: identity of submit outputs, registry size, launch log vs success markers and live processes, over seeded schedules and successive runs",
+    "Duplicates at any position, completed and aborted previous runs (with re-attached live processes) are replayed under seeded schedules; a second job object, a relaunch after success or a launch beside a live process is a violation. Held on the schedules explored; unexplored schedules are not covered.",
+    "Trusted: the simulation boundary (SimProcess writes the runner's markers; foreign processes are a driver-serialised second CounterToken object), the plan as ground truth, asyncio FIFO inside the loop.",
+    "DESIGN.md §2.3, §3 C05",
+)
+check(
+    "C06",
+    "engine-B",
+    "exploration",
+    "runtime monitoring under controlled-schedule execution: state / future / exit-condition monitors sampled at every quiescent point and at terminal quiescence of the controlled engine",
+    "Final states must be truthful (planned exit codes, markers), stable across quiescent samples, equal to what Job.wait() returns; at terminal quiescence every job is final, unfinishedJobs is 0 and experiment.wait() has returned, and it never returns while a job is not final. Held on the schedules explored; unexplored schedules are not covered.",
+    "Trusted: the simulation boundary (SimProcess writes the runner's markers; foreign processes are a driver-serialised second CounterToken object), the plan as ground truth, asyncio FIFO inside the loop.",
+    "DESIGN.md §2.3, §3 C06",
+)
+check(
+    "C07",
+    "engine-B",
+    "exploration",
+    "runtime monitoring under controlled-schedule execution: failure-containment monitor (launch log and final states vs plan DAG and failing subset) over seeded schedules",
+    "For random DAGs and failing subsets, with failures exiting before, while or after dependents are submitted: no launch below a failed job, dependents end in error, unrelated jobs complete, experiment.wait() raises exactly when a job failed. Held on the schedules explored; unexplored schedules are not covered.",
+    "Trusted: the simulation boundary (SimProcess writes the runner's markers; foreign processes are a driver-serialised second CounterToken object), the plan as ground truth, asyncio FIFO inside the loop.",
+    "DESIGN.md §2.3, §3 C07",
+)
+check(
+    "C08",
+    "engine-B",
+    "exploration",
+    "runtime monitoring under controlled-schedule execution: capacity ledger monitor (launch/exit/foreign acquire/release) plus on-disk recount at every quiescent point, with a foreign agent on the same token directory",
+    "The monitor's own ledger and the sum of the token files never exceed the total, for heterogeneous requests, two tokens per job and foreign acquisitions whose notification is still queued. Held on the schedules explored; unexplored schedules are not covered.",
+    "Trusted: the simulation boundary (SimProcess writes the runner's markers; foreign processes are a driver-serialised second CounterToken object), the plan as ground truth, asyncio FIFO inside the loop.",
+    "DESIGN.md §2.3, §3 C08",
+)
+check(
+    "C09",
+    "engine-B",
+    "exploration",
+    "runtime monitoring under controlled-schedule execution: conservation-at-quiescence monitor: token files, fresh recount, in-memory availability, waiting-with-capacity; observer-death detection",
+    "At terminal quiescence no token file is left, a fresh recount shows full capacity, no job waits while its request fits; covers failures, aborted starts, foreign files created before written, reclaim by another process, previous aborted runs. Held on the schedules explored; unexplored schedules are not covered.",
+    "Trusted: the simulation boundary (SimProcess writes the runner's markers; foreign processes are a driver-serialised second CounterToken object), the plan as ground truth, asyncio FIFO inside the loop.",
+    "DESIGN.md §2.3, §3 C09",
+)
+
 NOT_APPLICABLE = []
 
 
